@@ -1,7 +1,7 @@
 """C05 — authenticated decryption (SM4-GCM, AES-GCM, SM4-CCM, SM4-CBC+SM3-HMAC, SM4-CTR+SM3-HMAC; one-shot and
 streaming) accepts the untouched output of the matching encryption and rejects every single-bit change of
 nonce / AAD / ciphertext / tag, every truncation and every one-byte extension."""
-from vlib import core, devdiff
+from vlib import core, devdiff, gcmpy
 from vlib.core import hexs
 
 FIELDS = ["ok", "nonce", "aad", "ct", "tag", "trunc", "ext"]
@@ -15,7 +15,7 @@ def pattern(r):
     return ",".join(str(x) for x in p)
 
 
-def gen(ctx):
+def gen(ctx, model=None):
     r = ctx.rng
     thorough = ctx.tier == "thorough"
     ns = 40 if not thorough else 120      # the extracted N-based model costs ~5 ms per decrypt
@@ -66,6 +66,19 @@ def gen(ctx):
             if i % 2 == 0 or thorough:
                 sample(scheme, "str", r.bytes(48), r.bytes(16), r.bytes(r.choice([0, 5, 64])), r.bytes(PT[(i // 2 + 3) % len(PT)]), 32, "len%s" % ("blk" if PT[(i // 2 + 3) % len(PT)] % 16 == 0 else "part"),
                        cellfor=lambda f, s=scheme: ("%s:nonce-not-authenticated" % s) if f == "nonce" else None)
+    # counter wrap: 16-byte IVs solved for so that J0 ends in ff ff ff ff / fe (inc32 must not carry into byte 11)
+    if model is not None:
+        hk = [("sm4", r.bytes(16)), ("aes", r.bytes(16)), ("aes", r.bytes(32))]
+        houts, _ = core.run_lines(model, ["blk %s %s %s" % (a, k.hex(), "00" * 16) for a, k in hk])
+        for (alg, key), ho in zip(hk, houts):
+            if len(ho) != 32 or int(ho, 16) == 0:
+                continue
+            for last in (0xffffffff, 0xfffffffe):
+                j0 = (int.from_bytes(r.bytes(12), "big") << 32) | last
+                ivx = bytes.fromhex("%032x" % gcmpy.iv16_for_j0(int(ho, 16), j0))
+                for style in (("one", "str") if alg == "sm4" else ("one",)):
+                    sample(alg + "gcm", style, key, ivx, r.bytes(5), r.bytes(50), 16, "", fields=["ok", "tag"],
+                           cellfor=lambda f, a=alg, st=style: "%sgcm:%s:%s:ctr32-wrap" % (a, st, f))
     # SM4-CBC+SM3-HMAC padding: MAC-valid streams whose CBC plaintext ends in a chosen last block.
     # strict PKCS#7 (sm4_cbc_padding_decrypt since 75d04f0): a correct last byte with a wrong interior
     # padding byte must be rejected; well-formed padding must be accepted
@@ -118,7 +131,7 @@ def run(ctx):
     if model is None:
         ctx.violation("correspondence:model-build", "extracted model does not build: " + log[-500:], {"kind": "correspondence", "log": log[-3000:]}, False)
         return finish(ctx)
-    cases = gen(ctx)
+    cases = gen(ctx, model)
     for v in ["asan"]:
         exe, log = core.build_harness("C05", v)
         if exe is None:
